@@ -145,6 +145,43 @@ def run(chk):
                     chk.violation("C08.cancelsafe", a, K.short(a, 50), f"except BaseException: self._unread_data({acc}...); raise",
                                   f"{name}() moves buffered bytes into the local `{acc}` and then waits for more; if that wait is cancelled (asyncio.wait_for timing out) the bytes are dropped: `event: par` + timeout + `tial\\n` makes the next read return `tial\\n`, the bytes received before are never returned and no error is set")
     chk.expect_count("C08.cancelsafe", ncs, 3, "waits inside accumulating read loops of StreamReader")
+    # ---- cancelsafe.consumer: the same obligation for the byte-returning readers built on a stream ------------------------------------------
+    # A `read*()` coroutine outside StreamReader that collects awaited stream reads into a local and returns bytes can be called again after it
+    # was interrupted; what its earlier iterations took out of the stream has to survive the interruption (pushed back, or kept on self).
+    # Not in scope: readers of structured items (MultipartReader.next / _read_headers, BaseRequest.post) - their parse state is not resumable.
+    READS = ("read", "readany", "readline", "readchunk", "read_chunk", "readexactly", "readuntil")
+    ncon = 0
+    for m_ in repo.all_modules():
+        if m_.rel.endswith(("test_utils.py", "pytest_plugin.py")):
+            continue
+        for fn in m_.functions.values():
+            last = fn.qualname.split(".")[-1]
+            if not isinstance(fn.node, ast.AsyncFunctionDef) or fn.qualname.startswith("StreamReader.") or not last.lstrip("_").startswith("read") or "header" in last:
+                continue
+            for lp in [l for l in ast.walk(fn.node) if isinstance(l, ast.While)]:
+                waits = [a for a in prog.awaits_in(lp) if next(iter(K.loop_ancestors(a)), None) is lp and isinstance(a.value, ast.Call)
+                         and isinstance(a.value.func, ast.Attribute) and a.value.func.attr in READS]
+                accs = set()
+                for st in ast.walk(lp):
+                    if isinstance(st, ast.Call) and isinstance(st.func, ast.Attribute) and st.func.attr in ("append", "extend") and isinstance(st.func.value, ast.Name):
+                        accs.add(st.func.value.id)
+                    elif isinstance(st, ast.AugAssign) and isinstance(st.target, ast.Name) and isinstance(st.op, ast.Add) and any(isinstance(x, ast.Await) for x in ast.walk(st.value)):
+                        accs.add(st.target.id)
+                if not waits or not accs:
+                    continue
+                for a in waits:
+                    ncon += 1
+                    hs = [h for _t, h in K.enclosing_try_handlers(a) if h.type is None or {"BaseException", "asyncio.CancelledError"} & set(PC.handler_types(h))]
+                    keeps = [h for h in hs if isinstance(h.body[-1], ast.Raise) and any(
+                        (isinstance(c, ast.Call) and any(isinstance(x, ast.Name) and x.id in accs for arg in c.args for x in ast.walk(arg)))
+                        or (isinstance(c, ast.Assign) and isinstance(c.targets[0], ast.Attribute) and any(isinstance(x, ast.Name) and x.id in accs for x in ast.walk(c.value)))
+                        for c in ast.walk(h))]
+                    if keeps:
+                        chk.ok("C08.cancelsafe.consumer", a, f"{fn.qualname}(): what was collected in `{'/'.join(sorted(accs))}` is pushed back or kept when the wait is interrupted")
+                    else:
+                        chk.violation("C08.cancelsafe.consumer", a, K.short(a, 60), f"except BaseException: <stream>._unread_data({sorted(accs)[0]}) / self.<attr> = {sorted(accs)[0]}; raise",
+                                      f"{fn.qualname}() takes bytes out of the stream into the local `{sorted(accs)[0]}` and waits for more; when that wait is interrupted (asyncio.wait_for timing out, a cancelled handler that is retried) the bytes are gone: the next read continues after them, nothing reports the gap")
+    chk.expect_count("C08.cancelsafe.consumer", ncon, 3, "waits inside accumulating loops of byte-returning read*() coroutines outside StreamReader")
     # ---- sepsplit: a multi-byte separator that straddles two buffered blocks is found -----------------------------------------------------
     ru = sr.methods.get("readuntil")
     if ru is not None:
